@@ -16,17 +16,22 @@ BARE = ['error', 'ERROR', 'warn', 'a.b', 'x-y', 'foo_bar', 'a*b', 'a*', '*b', 'G
 QUOTED = ['two words', 'a*b', 'x(y)', '[z]', 'a.b', 'Error', 'q"uote', "it's", ' lead', 'trail ', 'a|b', 'c\\d', '{}', 'a  b', 'AND', 'é']
 
 
-def gen_filter(rng, depth):
+# keywords whose occurrences overlap in a line (one contains, or shares an end with, another)
+OVERLAP = [['conn', 'connection', 'connect', 'nect'], ['abc', 'bcd', 'abcd', 'cd', 'b'], ['err', 'error', 'rror', 'ro'], ['aa', 'aaa', 'a'],
+           ['time', 'timeout', 'out', 'meo'], ['x*z', 'xyz', 'yz', 'x*'], ['a b', 'b c', 'a b c', 'b']]
+
+
+def gen_filter(rng, depth, bare=None, quoted=None):
     r = rng.random()
     if depth <= 0 or r < 0.4:
         if rng.random() < 0.6:
-            return ('kw', 'wild', rng.choice(BARE))
-        return ('kw', 'exact', rng.choice(QUOTED))
+            return ('kw', 'wild', rng.choice(bare or BARE))
+        return ('kw', 'exact', rng.choice(quoted or QUOTED))
     if r < 0.6:
-        return ('and', [gen_filter(rng, depth - 1), gen_filter(rng, depth - 1)])
+        return ('and', [gen_filter(rng, depth - 1, bare, quoted), gen_filter(rng, depth - 1, bare, quoted)])
     if r < 0.8:
-        return ('or', [gen_filter(rng, depth - 1), gen_filter(rng, depth - 1)])
-    return ('not', gen_filter(rng, depth - 1))
+        return ('or', [gen_filter(rng, depth - 1, bare, quoted), gen_filter(rng, depth - 1, bare, quoted)])
+    return ('not', gen_filter(rng, depth - 1, bare, quoted))
 
 
 def keywords(f, out):
@@ -76,8 +81,14 @@ def explore(ctx):
     failures = []
     cases = corpus_cases('C02')
     for i in range(n):
-        top = [gen_filter(rng, rng.randint(0, 3)) for _ in range(rng.randint(1, 3))]
-        if rng.random() < 0.2:
+        short = rng.random() < 0.2
+        fam = rng.choice(OVERLAP)
+        if short:
+            # overlapping keywords on lines that are nothing but a keyword or a few glued together
+            top = [gen_filter(rng, rng.randint(0, 2), [w for w in fam if ' ' not in w], fam) for _ in range(rng.randint(1, 3))]
+        else:
+            top = [gen_filter(rng, rng.randint(0, 3)) for _ in range(rng.randint(1, 3))]
+        if not short and rng.random() < 0.2:
             # the same text once bare and once quoted in one filter: * is a wildcard in one, literal in the other
             twin = rng.choice(['a*b', 'x*', 'a.b', 'er*or', 'GET*index'])
             a, b = ('kw', 'wild', twin), ('kw', 'exact', twin)
@@ -101,7 +112,14 @@ def explore(ctx):
                 elif r < 0.5:
                     k = k[:-1]
                 parts.append(k)
-            lines.append('L%d %s\n' % (j, rng.choice([' ', ' - ', ' | ']).join(parts)))
+            if short:
+                lines.append(rng.choice(['', '', ' ', '-']).join(rng.choice(fam).replace('*', rng.choice(['', 'y'])) for _ in range(rng.randint(1, 2))) + '\n')
+            else:
+                lines.append('L%d %s\n' % (j, rng.choice([' ', ' - ', ' | ']).join(parts)))
+        if short and rng.random() < 0.3:
+            lines[-1] = lines[-1].rstrip('\n')        # the last line of the input need not end in a newline
+            if lines[-1] == '':
+                lines.pop()
         try:
             q = qast.filter_text(filt)
         except Exception:
@@ -163,7 +181,7 @@ def explore(ctx):
     cov = {
         'evaluations': len(cases), 'distinct_nontrivial': len(nontrivial),
         'rule': 'filter ASTs (depth <= 3, 1..3 juxtaposed terms) over bare keywords (regex metacharacters, * in every position, reserved words as substrings) and quoted keywords; '
-                '3..14 tagged lines built from the keywords (present, case-flipped, wildcard gap filled, whitespace varied, truncated); observed: the printed lines and the count; '
+                '3..14 tagged lines built from the keywords (present, case-flipped, wildcard gap filled, whitespace varied, truncated); one case in five uses keywords whose occurrences overlap (conn/connection, abc/bcd) on untagged lines that are just one or two keywords glued together, the last one sometimes without a newline; observed: the printed lines and the count; '
                 'non-trivial = >=2 keywords with both a passing and a rejected line',
         'samples': [{'query': c.query, 'input_lines': c.lines[:4]} for c in cases[2:5]],
         'model_agreement_checked': agree,
